@@ -7,6 +7,6 @@ git -C /repo worktree add --detach $d HEAD >/dev/null 2>&1 || exit 2
 git -C $d apply $patch || { echo "patch does not apply"; exit 2; }
 (cd $d && GOFLAGS=-mod=mod GOPROXY=off go build ./x/... ./app/... ) || { echo "does not build"; exit 2; }
 echo "##### $name $(date +%T)"
-/verif/seedtest.sh $d "$@"
+"$(dirname "$(readlink -f "$0")")"/seedtest.sh $d "$@"
 git -C /repo worktree remove --force $d >/dev/null 2>&1
-rm -f /verif/bin/sim.$(python3 -c "import hashlib;print(hashlib.sha1('$d'.encode()).hexdigest()[:8])").test
+rm -f "$(dirname "$(readlink -f "$0")")"/bin/sim.$(python3 -c "import hashlib;print(hashlib.sha1('$d'.encode()).hexdigest()[:8])").test
